@@ -53,7 +53,8 @@ def names_for(rng, T, res):
 
 def random_P(rng, T, need_positive):
     nk = rng.randint(1, 12)
-    keys = {tuple(rng.choice([0, 0, 1, 1, 2, 3, 5]) for _ in range(T)) for _ in range(nk)}
+    big = rng.random() < 0.06
+    keys = {tuple(rng.choice([0, 0, 1, 1, 2, 3, 5] + ([300, 70000] if big else [])) for _ in range(T)) for _ in range(nk)}
     if need_positive:
         keys.add(tuple(rng.randint(1, 4) for _ in range(T)))
     keys = list(keys)
